@@ -29,6 +29,31 @@ checks = [
  chk("C08", "model_checking",
      "The Scan loop is an explicit TLA+ state machine (LexScan.tla, one action per loop iteration). TLC checks exact positions, tiling, last-live-state-wins and sticky EOF for ALL automaton outcomes and all texts up to the bound; real lexers (plain and -debug_lexer) are then run and every recorded trace (per Scan call / per loop iteration) is validated by TLC against the same model instantiated with the real automaton; token streams are also compared with the TLA+ reference position function.",
      TRUST, "TLA+ spec (LexScan/MC_LexScan/LexTrace/LexRef) + TLC exhaustive model checking + trace validation of real runs", "5/C08"),
+ chk("C02", "model_checking",
+     "For every generated grammar gocc reports conflict-free, TLC explores the WHOLE reachable product of the real action/goto/production tables (read out of the compiled parser) with the canonical LR(1) automaton of LR1.tla, so table agreement holds for every token sequence; the parse driver is an explicit TLA+ state machine (LRParse.tla) that TLC checks, over canonical tables of curated/exhaustive-tiny/random grammars and ALL inputs up to the bound, to accept exactly the sentences of an LR-independent language oracle and to terminate; real Parse runs are validated step by step against that driver model over the real and over the canonical tables.",
+     TRUST + " LR theorem beyond the bounded inputs re-checked in MC_LRParse.",
+     "TLA+ spec (CFG/LR1/LRProduct/LRParse/MC_LRParse/LRTrace) + TLC product reachability against tables read from the generated code + trace validation", "5/C02"),
+ chk("C03", "model_checking",
+     "The driver model carries attributes (token identity, value identity of earlier action results, nil, error attributes); TLC checks post-order/yield/arity and stop-at-failing-action for all small inputs and all failing-call choices; every action call of real runs (production, argument identities, call number, injected failure and the returned error) is validated by TLC against the model over the real and the canonical tables.",
+     TRUST, "TLA+ spec (LRParse/MC_LRParse/LRTrace) + TLC model checking + trace validation of logged action calls", "5/C03"),
+ chk("C04", "model_checking",
+     "The canonical LR(1) automaton of each grammar (conflicting states, accept conflicts) is computed by TLC from LR1.tla; the exit/announcement policy is the outcome table of the TLC-checked Pipeline.tla state machine; the real gocc, with and without -a, must announce exactly when and how many states conflict and exit as the policy says. Every disagreement is a concrete grammar + flag set replayed on the real binary.",
+     TRUST, "TLA+ spec (LR1/LRIdealEval/Pipeline) evaluated/model-checked by TLC, compared with real gocc runs", "5/C04"),
+ chk("C05", "model_checking",
+     "TLC shows the pairwise resolution rule is order independent and equals shift-else-earliest-production for every competing set and permutation; for grammars with conflicts generated with -a TLC explores the whole product of the real tables with the canonical automaton resolved by that rule; real runs are validated against the resolved canonical machine (verdict and reductions).",
+     TRUST, "TLA+ spec (LR1/MC_Resolve/LRProduct/LRTrace) + TLC product reachability + trace validation", "5/C05"),
+ chk("C06", "model_checking",
+     "TLC checks on canonical tables of small reduced grammars and ALL inputs up to the bound that a failing parse names the first offending token, runs no action on it and reports exactly the viable continuations (prefix oracle independent of LR); LRProduct shows the real tables are the canonical ones; the error values of real failing runs (token object identity, type, expected set, no later action call) are validated against the driver model.",
+     TRUST, "TLA+ spec (CFG oracle/LR1/LRParse/LRProduct/LRTrace) + TLC model checking + trace validation", "5/C06"),
+ chk("C07", "model_checking",
+     "Recovery is modelled as explicit actions (Recover/Skip/Resume/GiveUp/Fail) written from the statement; TLC checks deadlock-freedom, termination, token order and inertness on error-free inputs over canonical tables for all small inputs; LRProduct requires the real recovery flags to mark exactly the states that can shift error; real runs (a panic is an event no action matches) are validated against the model over real and canonical tables.",
+     TRUST + " Domain: alternatives that begin with error (F8 is a known finding elsewhere).", "TLA+ spec (LRParse recovery actions/MC_LRParse/LRProduct/LRTrace) + TLC model checking + trace validation", "5/C07"),
+ chk("C10", "model_checking",
+     "The behaviour of the generated token.TokMap is observed by executing the compiled package; TLC checks numbering, mutual inverse and unknown-name rules (TokenMap.tla) on every observed map; LexProduct/LRProduct pair lexer accept numbers and parser columns with the specification by name through the real map over all reachable product states, for lexer-only, -no_lexer and combined grammars with hostile spellings.",
+     TRUST, "TLA+ spec (TokenMap/LexProduct/LRProduct) checked by TLC on maps and tables read from the generated code", "5/C10"),
+ chk("C16", "model_checking",
+     "Histories of Parse calls on one parser object and Scan/Reset histories on one lexer object are recorded from the real code; the models start every Parse / every post-Reset scan from the fresh configuration, so TLC accepting the trace of the k-th call IS history independence; TLC also explores Reset at every call boundary of the Scan-loop model.",
+     TRUST, "TLA+ spec (LRParse/LexScan + trace specs) + TLC model checking + trace validation of call histories", "5/C16"),
 ]
 
 claimed = {c["property_id"] for c in checks}
